@@ -342,45 +342,44 @@ def evalLoop : List Expr → List String → Scope → Fields → Tags → Optio
 /-- `vars.Has(name)` / `vars.Get(name)`. -/
 def scopeGet (sc : Scope) (k : String) : Option Val := aget sc k
 
-def evalTags (c : EvalCfg) (sc : Scope) (tags : Tags) : Option Tags :=
-  c.tags.foldl (fun acc t =>
+/-- The shape shared by the tag loop and the three field loops of `EvalNode.eval`: walk the names; `get` says
+"error" (none), "skip" (some none) or "write this value" (some (some v)); the first error aborts. -/
+def optFold {β : Type} (get : String → Option (Option β)) (keys : List String) (init : List (String × β)) : Option (List (String × β)) :=
+  keys.foldl (fun acc k =>
     match acc with
     | none => none
-    | some ts =>
-      match scopeGet sc t with
-      | some (.str s) => some (aset ts t s)
-      | _ => none) (some tags)
+    | some m =>
+      match get k with
+      | none => none
+      | some none => some m
+      | some (some v) => some (aset m k v)) (some init)
+
+/-- `for tag := range n.tags`: the result must exist and be a string. -/
+def tagGet (sc : Scope) (t : String) : Option (Option String) :=
+  match scopeGet sc t with
+  | some (.str s) => some (some s)
+  | _ => none
+
+def evalTags (c : EvalCfg) (sc : Scope) (tags : Tags) : Option Tags := optFold (tagGet sc) c.tags tags
+
+/-- keep(list): the scope first, then the raw fields, else "cannot keep field". -/
+def keepListGet (sc : Scope) (fields : Fields) (f : String) : Option (Option Val) :=
+  match scopeGet sc f with
+  | some v => some (some v)
+  | none => (aget fields f).map some
+
+/-- keep(): every result is read back from the scope. -/
+def keepAllGet (sc : Scope) (f : String) : Option (Option Val) := (scopeGet sc f).map some
+
+/-- no keep: the results, skipping those turned into tags. -/
+def noKeepGet (c : EvalCfg) (sc : Scope) (f : String) : Option (Option Val) :=
+  if c.tags.contains f then some none else (scopeGet sc f).map some
 
 def evalFields (c : EvalCfg) (sc : Scope) (fields : Fields) : Option Fields :=
   if c.keep then
-    if c.keepList ≠ [] then
-      c.keepList.foldl (fun acc f =>
-        match acc with
-        | none => none
-        | some nf =>
-          match scopeGet sc f with
-          | some v => some (aset nf f v)
-          | none =>
-            match aget fields f with
-            | some v => some (aset nf f v)
-            | none => none) (some [])
-    else
-      c.as.foldl (fun acc f =>
-        match acc with
-        | none => none
-        | some nf =>
-          match scopeGet sc f with
-          | some v => some (aset nf f v)
-          | none => none) (some fields)
-  else
-    c.as.foldl (fun acc f =>
-      match acc with
-      | none => none
-      | some nf =>
-        if c.tags.contains f then some nf else
-        match scopeGet sc f with
-        | some v => some (aset nf f v)
-        | none => none) (some [])
+    if c.keepList ≠ [] then optFold (keepListGet sc fields) c.keepList []
+    else optFold (keepAllGet sc) c.as fields          -- all original fields + all results
+  else optFold (noKeepGet c sc) c.as []               -- the results only
 
 /-- `EvalNode.eval` on the fields and tags of one point; `none` = error = the point is dropped. -/
 def evalFT (c : EvalCfg) (fields : Fields) (tags : Tags) : Option (Fields × Tags) :=
